@@ -1176,6 +1176,17 @@ fn replay_local_event_admission(sc: &Value) -> Value {
     json!({"status": "done", "admitted": admitted.contains(&rid)})
 }
 
+fn replay_room_revocation(sc: &Value) -> Value {
+    let mut keys = Keys::new();
+    let room = match build_room(&sc["rooms"][0], &mut keys) {
+        Ok(r) => r,
+        Err(e) => return json!({"status": "precondition", "detail": e}),
+    };
+    let kname = sc["key"].as_str().unwrap();
+    let key = if kname.is_empty() { vec![] } else { keys.vk(kname) };
+    crate::synchronisation::peer_inbound_service::verif_hook::replay_room_revocation(room, key)
+}
+
 fn replay_inbound_query(sc: &Value) -> Value {
     use crate::synchronisation::peer_outbound_service::{InboundQueryService, RemotePeerHandle};
     use crate::synchronisation::{Answer, Query, QueryProtocol};
@@ -1698,6 +1709,7 @@ pub fn dispatch(sc: &Value) -> Value {
         "room_three_paths" => replay_room_three_paths(sc),
         "rooms_for_peer" => replay_rooms_for_peer(sc),
         "local_event_admission" => replay_local_event_admission(sc),
+        "room_revocation" => replay_room_revocation(sc),
         "inbound_query" => replay_inbound_query(sc),
         "digest_pair" => replay_digest_pair(sc),
         "sign_oracle" => replay_sign_oracle(sc),
